@@ -23,7 +23,7 @@ CFG = dict(
     min_counts={"any": {"level_none": 100, "level_stacks": 100, "realloc_same_pointer": 100, "realloc_moved": 100,
                         "dump_with_live_allocations": 100, "reading_with_activity_in_flight": 20,
                         "block_released_by_another_thread": 50,
-                        "untracked_block_resized_through_tracer": 100, "untracked_block_released_through_tracer": 100}},
+                        "untracked_block_resized_through_tracer": 100, "more_than_4000_distinct_call_stacks": 20, "untracked_block_released_through_tracer": 100}},
 )
 
 META = dict(
